@@ -566,8 +566,12 @@ def nearDescLoop (N : Near) : Nat → List Nat → List Nat → List Nat
     let push := N.exceptions.filter (fun e => N.lab.subsumes e.2 cur && !(seen1.contains e.1))
     nearDescLoop N f ((push.map (·.1)).reverse ++ frontier) seen1
 
+/-- fuel of the frontier loop: an upper bound on the number of pops (every pop of `x` can push
+at most one entry per exception, and pushed nodes lie strictly lower in the poset) -/
+def nearFuel (N : Near) : Nat := (N.exceptions.length + 1) ^ N.lab.tin.length + 1
+
 def Near.descendants (N : Near) (y : Nat) : List Nat :=
-  nearDescLoop N ((N.exceptions.length + 1) * (N.exceptions.length + 1) + 1) [y] []
+  nearDescLoop N (nearFuel N) [y] []
 
 structure NearIdx where
   P : Poset
